@@ -152,6 +152,11 @@ func ChildMain(prop, tier string, seed int64, from, to int, prefix string) int {
 		progress.Store(int64(to) + 2)
 		m.Teardown(c)
 	}
+	if ProcCounters != nil {
+		for k, v := range ProcCounters() {
+			c.Counters[k] += v
+		}
+	}
 	res := ChildResult{Prop: prop, From: from, To: to, Evaluations: c.Evaluations, Counters: c.Counters,
 		Samples: c.Samples, Viol: c.Viol, ViolByKey: c.ViolByKey, FirstByKey: c.FirstByKey, Notes: c.Notes, Inconcl: c.Inconcl}
 	hb := make([]byte, 0, 8*len(c.Distinct))
